@@ -71,7 +71,8 @@ Definition step_stop (c : jcfg) (s : jsim) : option jsim :=
     if cons_done s then Some (s <| stop_ret := t |>) else
     Some (s <| obuf := [] |> <| holding := None |> <| cons_done := true |> <| stop_ret := t |>
             <| outlog := rev drained ++ outlog s |> <| tclose := t |>
-            <| ambiguous := ambiguous s || (cons_at s =? t) || match holding s with Some (u, _) => u =? t | None => false end |>)
+            <| ambiguous := ambiguous s || (match obuf s with [] => false | _ => true end &&
+                                            ((cons_at s =? t) || match holding s with Some (u, _) => u =? t | None => false end)) |>)
   else None.
 
 (* B. the consumer *)
